@@ -51,6 +51,7 @@ type interpreter struct {
 	callDepth          int
 	ptrIDs             map[*value]int
 	onceDone           map[string]bool
+	panicTrace         []string
 	locks              map[*value]*lockState
 }
 
@@ -607,6 +608,18 @@ func runFrame(fr *frame) {
 		case pathAbort, engineError:
 			panic(r)
 		case targetPanic:
+			if len(fr.i.panicTrace) < 12 {
+				pos := ""
+				if fr.block != nil {
+					for _, in := range fr.block.Instrs {
+						if in.Pos().IsValid() {
+							pos = fr.i.prog.Fset.Position(in.Pos()).String()
+							break
+						}
+					}
+				}
+				fr.i.panicTrace = append(fr.i.panicTrace, fr.fn.String()+" ("+pos+")")
+			}
 		case runtime.Error:
 			// a crash inside the engine while interpreting: not a property of the target program
 			buf := make([]byte, 4096)
